@@ -47,6 +47,8 @@ RULE = (
     "not transform() and that is called again afterwards, or (c) a loader call after an edit of an earlier loader "
     "result of the same element. distinct = distinct case descriptor (canonical JSON hash)"
 )
+RULE = RULE + " " + "History steps also include 'preset' (AtomGrid.from_preset with the default radial grid; its rgrid arrays are editable targets; later builds must equal the first build in the process) and 'convert' (size->degree conversion of a small pool of size requests through all four methods)."
+
 ASSUMPTIONS = [
     "the shipped .npz files (read by pbt/oracles/data_loader.py, located through their file names) and "
     "atomic_gauss_params.json (own json.load) are the ground truth for 'the shipped data'",
